@@ -69,7 +69,7 @@ func shrinkW3(raw json.RawMessage) []json.RawMessage {
 	if o.Faults != zero {
 		for _, f := range []func(*orgbFaults){
 			func(f *orgbFaults) { f.RefuseDials = 0 }, func(f *orgbFaults) { f.DialDelayMs = 0 }, func(f *orgbFaults) { f.ReplyDelayUs = 0 },
-			func(f *orgbFaults) { f.FrameDelayUs = 0 }, func(f *orgbFaults) { f.DropAfter = 0 },
+			func(f *orgbFaults) { f.FrameDelayUs = 0 }, func(f *orgbFaults) { f.DropAfter = 0 }, func(f *orgbFaults) { f.DropAfterReqs = 0 },
 		} {
 			c := clone()
 			before := c.Faults
@@ -215,6 +215,9 @@ func genW3(r *simrt.Rng, prop string, tier string) (*w3Ops, []*model.Desc) {
 		if prop == "C16" && r.Chance(0.25) {
 			f.DropAfter = r.Range(1, 40)
 		}
+		if prop == "C16" && r.Chance(0.2) {
+			f.DropAfterReqs = r.Range(1, 5)
+		}
 	}
 	var descs []*model.Desc
 	for i := 0; i < nd; i++ {
@@ -327,6 +330,16 @@ func genW3(r *simrt.Rng, prop string, tier string) (*w3Ops, []*model.Desc) {
 				dir := []string{"octave_up", "octave_down"}[r.Intn(2)]
 				k := r.Range(9, 15)
 				tap(dir, k)
+				// ... with notes on MIDI input at the pitches the keys would have modulo 256
+				for j := 0; j < 2 && len(g.noteK) > 0; j++ {
+					off := 12 * k
+					if dir == "octave_down" {
+						off = -off
+					}
+					if w := (g.noteK[r.Intn(len(g.noteK))].Note + 12*d.Octave + d.Semitone + off) & 0xff; w < 128 {
+						g.out = append(g.out, model.Event{Kind: "midiin", Bytes: []byte{0x90, byte(w), 100}, Value: 0xff})
+					}
+				}
 				if r.Chance(0.5) {
 					tap(partnerOf(dir), r.Range(1, k))
 				}
@@ -687,7 +700,7 @@ func trimStack(s string) string {
 
 // w3Drive feeds one device's script, checks LED frames (lock-step mode) and unplugs the device.
 func w3Drive(st *w3DevState, dv w3Dev, ops *w3Ops, srv *orgbServer, mu *sync.Mutex, fail func(*w3DevState, int, *model.Violation), wr *w3Result) {
-	ledPossible := st.ctrl >= 0 && !dv.WrongType && !dv.NoSysfs && ops.Faults.DropAfter == 0
+	ledPossible := st.ctrl >= 0 && !dv.WrongType && !dv.NoSysfs && ops.Faults.DropAfter == 0 && ops.Faults.DropAfterReqs == 0
 	frameCount := func() int {
 		_, n, _ := srv.lastFrameOf(st.ctrl)
 		return n
